@@ -9,7 +9,11 @@ import (
 	"runtime"
 	"runtime/debug"
 	"sort"
+	"strconv"
 	"strings"
+	"sync/atomic"
+	"syscall"
+	"time"
 
 	runewidth "github.com/mattn/go-runewidth"
 
@@ -246,9 +250,81 @@ func (c *Ctx) checkKept() {
 }
 
 // RunCase runs one case under the panic guard.
+// ---- CPU guard: a case that does not return
+//
+// A wall-clock deadline says nothing on a loaded machine, so the shard watchdog's firing is INCONCLUSIVE.  The CPU
+// time this process has itself consumed inside ONE case is another matter: it does not depend on what else the
+// machine is doing.  Cases take milliseconds to a few seconds of CPU; one that has burnt caseCPUBudget (several
+// minutes) of it without finishing is a render (or a building call) that does not return - reported as a
+// violation of the property under check with the goroutine dump, not as a timeout.
+
+var (
+	guardSeq      atomic.Int64 // odd while a case runs
+	guardStartCPU atomic.Int64
+	guardPhase    atomic.Int64
+	guardIndex    atomic.Int64
+)
+
+func cpuMillis() int64 {
+	var ru syscall.Rusage
+	if syscall.Getrusage(syscall.RUSAGE_SELF, &ru) != nil {
+		return 0
+	}
+	return (int64(ru.Utime.Sec)+int64(ru.Stime.Sec))*1000 + (int64(ru.Utime.Usec)+int64(ru.Stime.Usec))/1000
+}
+
+// CaseCPUBudget is the CPU time (milliseconds) one case may consume (VERIF_CASE_CPU_SECONDS overrides).
+func CaseCPUBudget() int64 {
+	if v, err := strconv.Atoi(os.Getenv("VERIF_CASE_CPU_SECONDS")); err == nil && v > 0 {
+		return int64(v) * 1000
+	}
+	return 240 * 1000
+}
+
+// StartCPUGuard starts the watcher; onSpin is called (once, from the watcher's goroutine) after the violation has
+// been recorded: it has to save what the process has found and end the process, since the case never will.
+func StartCPUGuard(c *Ctx, onSpin func()) {
+	if c.Prop.Race {
+		return // many goroutines burn CPU side by side there; those checks have their own detection of calls that never return
+	}
+	budget := CaseCPUBudget()
+	go func() {
+		for {
+			time.Sleep(200 * time.Millisecond)
+			seq := guardSeq.Load()
+			if seq%2 == 0 {
+				continue
+			}
+			used := cpuMillis() - guardStartCPU.Load()
+			if used <= budget || guardSeq.Load() != seq {
+				continue
+			}
+			pi, i := int(guardPhase.Load()), int(guardIndex.Load())
+			buf := make([]byte, 1<<20)
+			n := runtime.Stack(buf, true)
+			name := ""
+			if pi >= 0 && pi < len(c.Prop.Phases) {
+				name = c.Prop.Phases[pi].Name
+			}
+			c.Rec.ViolateStack("case-does-not-return", fmt.Sprintf("phase %q case %d has consumed %d CPU-seconds of this process without finishing (cases of this check take milliseconds to seconds of CPU): a call into the library does not return; the goroutine dump shows where it is (no complete output and no error is a violation of %s; also C09)", name, i, used/1000, c.Prop.ID), c.Case, string(buf[:n]))
+			onSpin()
+			return
+		}
+	}()
+}
+
 func RunCase(c *Ctx, pi, i int) {
 	ph := &c.Prop.Phases[pi]
 	c.Rec.At(pi, i)
+	guardPhase.Store(int64(pi))
+	guardIndex.Store(int64(i))
+	startCPU := cpuMillis()
+	guardStartCPU.Store(startCPU)
+	guardSeq.Add(1)
+	defer func() {
+		guardSeq.Add(1)
+		c.Rec.Max("max:cpu_milliseconds_consumed_by_one_case", cpuMillis()-startCPU)
+	}()
 	c.Case = nil
 	destDir = c.OutDir
 	r := gen.NewR(c.Seed, c.Prop.ID, pi, i)
